@@ -246,6 +246,10 @@ func (c *checker) query(q *Query, outer []cscope) ([]ctype, error) {
 			if outerRef(q.On, 1) {
 				return nil, fmt.Errorf("join condition references an enclosing query")
 			}
+			if hasOr(q.On) && c.anyIndexed() {
+				// engine limitation (C03's subject): OR in a join condition over indexed tables is merged with WHERE ranges wrongly
+				return nil, fmt.Errorf("OR in a join condition over indexed tables")
+			}
 			if hasSubquery(q.On) {
 				// engine limitation: subqueries in ON that reference a join sibling fail with "unable to find field"
 				return nil, fmt.Errorf("subquery in a join condition")
@@ -256,6 +260,11 @@ func (c *checker) query(q *Query, outer []cscope) ([]ctype, error) {
 		src, err := c.query(q.Src, outer)
 		if err != nil {
 			return nil, err
+		}
+		if staticallyEmptyLeaf(q.Src) {
+			// engine limitation: derived tables whose WHERE folds to not-TRUE are replaced by an empty table and
+			// neighbouring subqueries / outer joins are then mis-planned
+			return nil, fmt.Errorf("statically empty derived table")
 		}
 		sc := append([]cscope{{types: src}}, outer...)
 		if err := c.cond(q.Wh, sc); err != nil {
@@ -372,7 +381,9 @@ func (c *checker) query(q *Query, outer []cscope) ([]ctype, error) {
 		out := make([]ctype, len(l))
 		for i := range l {
 			t, ok := unify(l[i], r[i])
-			if !ok || (l[i] != r[i] && l[i] != tNull && r[i] != tNull) {
+			if !ok || l[i] != r[i] || l[i] == tNull {
+				// NULL-literal columns in set operations: the engine's type unification of such branches is the subject
+				// of several findings (text results, ORDER BY ignored, conversion errors); kept out of the random stream
 				// INT with DECIMAL columns: value identity across types is C07's subject
 				return nil, fmt.Errorf("set operation over different column types")
 			}
@@ -475,6 +486,36 @@ func escapesQ(q *Query, d int) bool {
 		return escapesQ(q.Q, d)
 	}
 	return false
+}
+
+func hasOr(e *Expr) bool {
+	if e == nil {
+		return false
+	}
+	return e.Op == "or" || hasOr(e.A) || hasOr(e.B)
+}
+
+func (c *checker) anyIndexed() bool {
+	for _, t := range c.tables {
+		if t.PK >= 0 || len(t.Idx) > 0 {
+			return true
+		}
+	}
+	return false
+}
+
+func staticallyEmptyLeaf(src *Query) bool {
+	if src == nil {
+		return false
+	}
+	switch src.K {
+	case "table":
+		return false
+	case "join":
+		return staticallyEmptyLeaf(src.L) || staticallyEmptyLeaf(src.R)
+	}
+	b := peel(src)
+	return b != nil && (b.K == "select" || b.K == "group") && constFalseish(b.Wh)
 }
 
 func hasSubquery(e *Expr) bool {
